@@ -232,6 +232,14 @@ impl<H: Hasher> BatchMerkleProof<H> {
                 i += 1;
             }
         }
+
+        // every node supplied with the proof must have been used on the way up; otherwise two
+        // different proofs would open the same leaves against the same root
+        if proof_pointers.iter().zip(self.nodes.iter()).any(|(&pointer, nodes)| pointer != nodes.len())
+        {
+            return Err(MerkleTreeError::InvalidProof);
+        }
+
         v.remove(&1).ok_or(MerkleTreeError::InvalidProof)
     }
 
